@@ -61,6 +61,8 @@ func encodingClass(l Leaf) string {
 
 func runC06(c *Ctx) {
 	p := c.P
+	// clause shared with C07: a query parameter cannot replace what the path template captured
+	defer c.ImportRules("C07", "C07.9")
 	resolve := p.MustFunc("(*operation).resolveMethod")
 	match := p.MustFunc("(*routeTrie).match")
 	findTarget := p.MustFunc("(*routeTrie).findTarget")
